@@ -416,6 +416,17 @@ Theorem C14_no_runtime_process_state : no_runtime_process_state = true.
 Proof. exact no_runtime_process_state_holds. Qed.
 Print Assumptions C14_no_runtime_process_state.
 
+(* instance-level state: every map / channel / sync field of a struct type of those packages (regenerated) is classified:
+   ONE cache that survives calls and is a parameter of the model (PackageSet.Packages; the SearchResult.Linked inside its values
+   is the link cache), two memos of functions of fixed inputs (dependencyResolver.resultCache = ext_file; SchemaSet.cachedSpecs,
+   not modelled), the rest components of values built once.  A new map field breaks the set equality until reviewed *)
+Theorem C14_instance_state_reviewed :
+  state_fields_same_set = true
+  /\ caches_and_memos = [("protobuild", "PackageSet", "Packages"); ("protobuild", "dependencyResolver", "resultCache");
+                         ("walker/schema", "SchemaSet", "cachedSpecs")]%string.
+Proof. exact (conj state_fields_agree caches_and_memos_are). Qed.
+Print Assumptions C14_instance_state_reviewed.
+
 (* ---- the shape of every unordered loop body, regenerated from the Go source, is the one its row was written for;
    every key collection that is used as a sequence is followed by a sort *)
 Theorem C14_order_bodies_agree : order_bodies_same_set = true.
